@@ -123,7 +123,12 @@ func (f *format) parseRun(mode string, vfail int, chunks [][]byte) string {
 	for _, c := range chunks {
 		doc = append(doc, c...)
 	}
+	chunks = ownChunks(chunks) // private copies: overwritten once the parser has returned
 	o := guard(guardTime, func() {
+		defer func() {
+			scribble(chunks)
+			scribble([][]byte{doc})
+		}()
 		switch mode {
 		case "P":
 			p := f.newParser(refRecorder{rec})
@@ -163,7 +168,11 @@ func (f *format) parseRun(mode string, vfail int, chunks [][]byte) string {
 			}
 		}
 	}
-	return fmt.Sprintf("EV %s R %s D %s", eventsTok(evs), verdictTok(o, err), depths)
+	alias := ""
+	if !o.hung {
+		alias = rec.aliasFlag()
+	}
+	return fmt.Sprintf("EV %s R %s D %s%s", eventsTok(evs), verdictTok(o, err), depths, alias)
 }
 
 func (f *format) parseCase(r *rng) string {
